@@ -1,34 +1,82 @@
 #!/usr/bin/env python3
-"""tools/run_benign.py [ids...]: apply every behaviour-preserving refactor of benign/ to a scratch copy of /repo and run
-every claimed property's rules on it.  A refactor keeps every property, so ANY finding the unchanged tree does not have is
-a false alarm of the checker.  Exit 1 if there is one."""
-import glob, json, os, sys, time
+"""tools/run_benign.py [ids...]: apply every behaviour-preserving refactor of benign/ to a scratch export of the commit it was
+written against (meta.json "base") and run every claimed property's rules on it.  A refactor keeps every property, so ANY
+finding that the same commit does not have without the patch is a false alarm of the checker.  Exit 1 if there is one."""
+import glob, json, os, shutil, subprocess, sys, tempfile, time
 sys.path.insert(0, os.path.dirname(os.path.dirname(os.path.abspath(__file__))))
 from concurrent.futures import ThreadPoolExecutor
 from gcheck import facts, thorough
-from gcheck.props import PROPS
+from gcheck.props import PROPS, RULES
 
 only = set(sys.argv[1:])
-root = os.path.join(os.path.dirname(os.path.dirname(os.path.abspath(__file__))), "benign")
+VERIF = os.path.dirname(os.path.dirname(os.path.abspath(__file__)))
+root = os.path.join(VERIF, "benign")
 dirs = [d for d in sorted(glob.glob(os.path.join(root, "*"))) if os.path.isfile(os.path.join(d, "patch.diff")) and (not only or os.path.basename(d) in only)]
-F, _ = facts.load()
-base_ctx = thorough.MiniCtx(F, facts.REPO)
-claimed = [c["property_id"] for c in json.load(open(os.path.join(os.path.dirname(root), "MANIFEST.json")))["checks"]]
-base = {p: set(thorough.finding_keys(base_ctx, PROPS[p]["rules"])) for p in claimed}
+claimed = [c["property_id"] for c in json.load(open(os.path.join(VERIF, "MANIFEST.json")))["checks"]]
+rule_ids = sorted(set(r for p in claimed for r in PROPS[p]["rules"]))
 
-def one(d):
-    return os.path.basename(d), thorough.run_patch_all(d, claimed, base)
 
+def export(base):
+    d = tempfile.mkdtemp(prefix="gbenign-")
+    p = subprocess.run("git -C %s archive %s | tar -x -C %s" % (facts.REPO, base, d), shell=True, stdout=subprocess.PIPE, stderr=subprocess.STDOUT, text=True)
+    if p.returncode != 0:
+        raise RuntimeError(p.stdout)
+    return d
+
+
+def keys_of(repo_dir):
+    F, _ = facts.load("", repo=repo_dir)
+    c = thorough.MiniCtx(F, repo_dir)
+    out = {}
+    for rid in rule_ids:
+        try:
+            out[rid] = set(f.key for f in RULES[rid](c).findings)
+        except Exception as e:
+            out[rid] = {"%s|<crash>|%s: %s" % (rid, type(e).__name__, str(e)[:120])}
+    return out
+
+
+bases = {}
+for d in dirs:
+    b = json.load(open(os.path.join(d, "meta.json"))).get("base", "HEAD")
+    bases.setdefault(b, []).append(d)
 bad = 0
 t0 = time.time()
-with ThreadPoolExecutor(max_workers=int(os.environ.get("JOBS", "4"))) as ex:
-    for bid, res in ex.map(one, dirs):
-        if res.get("error"):
-            print("%-18s ERROR %s" % (bid, res["error"][:300])); bad += 1; continue
-        n = sum(len(v) for v in res["new"].values())
-        print("%-18s %s" % (bid, "silent" if not n else "FALSE ALARM(S): %d" % n))
-        for p, ks in sorted(res["new"].items()):
-            for k in ks:
-                print("    %s %s" % (p, k[:230])); bad += 1
+for b, ds in bases.items():
+    bd = export(b)
+    try:
+        base_keys = keys_of(bd)
+
+        def one(d):
+            w = tempfile.mkdtemp(prefix="gbenign-")
+            try:
+                subprocess.run(["rsync", "-a", bd + "/", w + "/"], check=True)
+                r = subprocess.run(["patch", "-p1", "-s", "--no-backup-if-mismatch", "-i", os.path.join(d, "patch.diff")], cwd=w, stdout=subprocess.PIPE, stderr=subprocess.STDOUT, text=True)
+                if r.returncode != 0:
+                    return os.path.basename(d), {"error": "patch does not apply to %s: %s" % (b, r.stdout[-200:])}
+                try:
+                    k = keys_of(w)
+                except facts.ExtractionError as e:
+                    return os.path.basename(d), {"error": "does not compile: " + str(e)[-300:]}
+                new = {}
+                for p in claimed:
+                    nk = sorted(x for rid in PROPS[p]["rules"] for x in k[rid] - base_keys[rid])
+                    if nk:
+                        new[p] = nk
+                return os.path.basename(d), {"new": new}
+            finally:
+                shutil.rmtree(w, ignore_errors=True)
+
+        with ThreadPoolExecutor(max_workers=int(os.environ.get("JOBS", "4"))) as ex:
+            for bid, res in ex.map(one, ds):
+                if res.get("error"):
+                    print("%-18s ERROR %s" % (bid, res["error"][:300])); bad += 1; continue
+                n = sum(len(v) for v in res["new"].values())
+                print("%-18s %s (base %s)" % (bid, "silent" if not n else "FALSE ALARM(S): %d" % n, b))
+                for p, ks in sorted(res["new"].items()):
+                    for k in ks:
+                        print("    %s %s" % (p, k[:230])); bad += 1
+    finally:
+        shutil.rmtree(bd, ignore_errors=True)
 print("%.0fs" % (time.time() - t0))
 sys.exit(1 if bad else 0)
